@@ -1610,7 +1610,13 @@ class Interp:
                     for x in eb:
                         lb = lb * x
                     if la == lb:
-                        # same total length but different factorisation: flatten both
+                        # same total length but different factorisation: common refinement (row-major mixed radix)
+                        ref = _refine_axes(a, b)
+                        if ref is not None:
+                            axes, m2 = ref
+                            mapping.update(m2)
+                            out_dims.append(axes)
+                            continue
                         return Top(f"{opname}: equal lengths but different index structure "
                                    f"({'*'.join(x.pretty() for x in ea)} vs {'*'.join(x.pretty() for x in eb)})")
                     self.events.append(("shape_mismatch", opname, l, r, self.where()))
@@ -1643,6 +1649,56 @@ def expand_const_loops(items, limit=8):
                 continue
         out.append(it)
     return out
+
+
+def _refine_axes(a, b):
+    """two axis lists (major -> minor) of one numpy dimension with the same total length -> (common axes, {idx: Poly}) where an
+    axis of one side whose extent is the product of consecutive axes of the other side is split row-major; None if impossible"""
+    i = j = 0
+    axes = []
+    mapping = {}
+    while i < len(a) and j < len(b):
+        (ia, ea), (ib, eb) = a[i], b[j]
+        if ea == eb:
+            axes.append((ia, ea))
+            if ia != ib:
+                mapping[ib] = Poly.atom(ia)
+            i += 1
+            j += 1
+            continue
+        done = False
+        for (X, x0, Y, y0, flip) in ((a, i, b, j, False), (b, j, a, i, True)):
+            ix, ex = X[x0]
+            prod = Poly.const(1)
+            k = y0
+            while k < len(Y):
+                prod = prod * Y[k][1]
+                k += 1
+                if prod == ex:
+                    # ix = sum_k iy_k * stride_k
+                    comb = Poly.const(0)
+                    for q in range(y0, k):
+                        stride = Poly.const(1)
+                        for q2 in range(q + 1, k):
+                            stride = stride * Y[q2][1]
+                        comb = comb + Poly.atom(Y[q][0]) * stride
+                    mapping[ix] = comb
+                    axes.extend(Y[y0:k])
+                    if flip:
+                        j += 1
+                        i = k
+                    else:
+                        i += 1
+                        j = k
+                    done = True
+                    break
+            if done:
+                break
+        if not done:
+            return None
+    if i != len(a) or j != len(b):
+        return None
+    return axes, mapping
 
 
 def _is_unit(dim):
